@@ -205,11 +205,16 @@ func (r *Rule) doEvaluate(logger debuglog.Logger, phase types.RulePhase, tx *Tra
 		// Expand the message using the current TX variables so that %{rule.msg} in setvar actions
 		// returns the fully expanded message, matching ModSecurity behavior.
 		ruleCol.SetIndex("msg", 0, r.Msg.Expand(tx))
+	} else {
+		// no message of its own: %{rule.msg} must not keep the message of the previous rule
+		ruleCol.SetIndex("msg", 0, "")
 	}
 	ruleCol.SetIndex("rev", 0, r.Rev_)
 	if r.LogData != nil {
 		// Same expansion for logdata, matching ModSecurity behavior for %{rule.logdata}.
 		ruleCol.SetIndex("logdata", 0, r.LogData.Expand(tx))
+	} else {
+		ruleCol.SetIndex("logdata", 0, "")
 	}
 	ruleCol.SetIndex("severity", 0, r.Severity_.String())
 	// SecMark and SecAction uses nil operator
